@@ -935,6 +935,17 @@ func (e *env) trCall(x *ECall) (Val, XT, error) {
 			return app(x.Fn, v), xtBool, nil
 		}
 		return app(x.Fn, v), xtInt, nil
+	case "f2i":
+		// Go's float64 -> int conversion (truncation), the same uninterpreted function execConvert uses
+		v, xt, err := argv(0)
+		if err != nil {
+			return nil, XT{}, err
+		}
+		if xt.S != "Real" {
+			return nil, XT{}, e.errf("f2i needs a float64 argument")
+		}
+		g.c.declareFun("f2i", []string{"Real"}, "Int")
+		return app("f2i", v), xtInt, nil
 	case "int", "int64", "int32", "uint64", "uint32", "uint8", "byte", "uint":
 		v, _, err := argv(0)
 		if err != nil {
